@@ -158,6 +158,12 @@ pub fn input_side(input: &[u8], f: Fmt, mode: &Mode, how: &str, acc: &mut Acc) {
         acc.violation(Violation { sig: format!("{} syntax error reported as 'translation failed'", f.name()), case: case(), observed: e.to_string(), expected: "the input parser's own message".into() });
         return;
     }
+    if f == Fmt::Yaml && e.starts_with("invalid type: enum") {
+        // a (local) tag earlier in the stream than the planted defect: xt streams, so it
+        // reports the construct it cannot translate before it ever reaches the defect
+        acc.count("input_side_unsupported_tag_met_first_skipped");
+        return;
+    }
     if f != Fmt::Msgpack && !has_position(e) {
         // UTF-8 validity errors of a whole slice are reported by position-less std messages
         if e.contains("utf-8") || e.contains("UTF-8") {
